@@ -538,8 +538,14 @@ func runC01(c *core.Ctx) {
 		}
 	}
 
+	// ---------------- more obligations ----------------
+	runC01More(k)
+	runC01Choose(k)
+	runC02Facts(k) // a false fact is an unsafe accepted program: the fact discipline is a C01 mechanism too
+
 	// ---------------- tables ----------------
 	runC01Tables(k)
+	runC02Tables(k) // facts.refine, proveBinaryOpConstValues etc. are C01 mechanisms too
 	_ = g
 	_ = proveBinaryOp
 }
